@@ -21,6 +21,6 @@ Definition roots :=
    Text.TextChars.save_cnf_text, Text.TextChars.combine_save_text,
    Text.TextChars.parse_cms_text, Text.TextChars.parse_unigen_text, Text.TextChars.sampler_input_text,
    Text.TextChars.update_file_text, Text.TextChars.cms_output_text, Text.TextChars.parse_v_text,
-   Text.TextChars.solve_result_text, Text.TextChars.unigen_format_text, Text.TextChars.parse_sampler_text,
+   Text.TextChars.solve_result_text, Text.TextChars.unigen_format_text, Text.TextChars.cmsgen_format_text, Text.TextChars.parse_sampler_text,
    Text.TextChars.opb_text, Text.TextChars.opb_file_text, Text.TextChars.ilp_update_text,
    Text.TextChars.pb_file_sat_text).
